@@ -287,6 +287,35 @@ async fn pipelined_ping_probe(addr: SocketAddr, req: &[u8]) -> Option<bool> {
     Some(false)
 }
 
+/// A pre-shared key that is configured as the empty string is still a configured key: requests without the header, or with any
+/// non-empty value, are refused like any other request.
+async fn empty_psk_probe(st: &mut Stats) {
+    let hv: &'static http::HeaderValue = Box::leak(Box::new(http::HeaderValue::from_static("")));
+    let state = State::new().await.expect("state").with_not_found_resp("verif-404-body").with_backend_http2_support(false).with_ws_psk(Some(hv));
+    let listener = tokio::net::TcpListener::bind("127.0.0.1:0").await.expect("bind");
+    let addr = listener.local_addr().expect("addr");
+    let srv = tokio::spawn(rusty_penguin_lib::server::run_listener(listener, None, state));
+    let base = Cell { method: "GET", path: "/ws", h: [Hv::Valid; 4], key: Hv::Valid, psk: Psk::Equal, http10: false };
+    for (name, psk) in [("absent", Psk::Absent), ("non-empty", Psk::Equal), ("non-empty-2", Psk::Prefix)] {
+        st.evaluations += 1;
+        let c = Cell { psk, ..base };
+        let req = request_bytes(&c, "/ws");
+        let twin = request_bytes(&c, "/verif-unknown-path");
+        let (Ok((r, _, _)), Ok((t, _, _))) = (net::http_once(addr, &req, false).await, net::http_once(addr, &twin, false).await) else {
+            st.inconclusive.push("c14 empty-psk probe: no response".into());
+            continue;
+        };
+        st.target("empty_psk_probes", 1);
+        st.nontrivial(mix(fnv(name.as_bytes()), 0xE0));
+        if r.status == 101 {
+            st.violation(Violation { signature: format!("invalid-upgrade-accepted|psk-empty-string|{name}"), detail: format!("the server is configured with the pre-shared key \"\" (the empty string); an otherwise valid upgrade request with X-Penguin-PSK {name} was answered 101"), replay: json!({"kind": "c14-empty-psk", "presented": name, "request": String::from_utf8_lossy(&req)}) });
+        } else if r.status != t.status || r.body != t.body {
+            st.violation(Violation { signature: format!("distinguishable|psk-empty-string|{name}"), detail: format!("refused upgrade answered {} / {} bytes, the same request on an unknown path {} / {} bytes", r.status, r.body.len(), t.status, t.body.len()), replay: json!({"kind": "c14-empty-psk", "presented": name}) });
+        }
+    }
+    srv.abort();
+}
+
 async fn run_cfg(st: &mut Stats, cfg: &SrvCfg, cells: &[Cell]) {
     let (addr, rec) = start_server(cfg).await;
     let cfg_s = format!("psk={} obfs={} backend={} forwarding_headers={}", cfg.psk, cfg.obfs, cfg.backend, cfg.fwd);
@@ -415,6 +444,9 @@ pub fn run(p: &Params) -> (Stats, &'static str) {
         if st.too_many_violations() {
             break;
         }
+    }
+    if p.shard == 0 {
+        rt.block_on(empty_psk_probe(&mut st));
     }
     st.exhaustive.push("all request cells with at most two deviations from the valid upgrade request, x 12 server configurations".into());
     st.sample(json!({"request": String::from_utf8_lossy(&request_bytes(&cells[cells.len().min(100) - 1], "/ws")), "checked": "status 101 iff predicate; else response == response of the same request on /verif-unknown-path"}));
